@@ -6,7 +6,8 @@
    configurations carried over, interpolators exchanged freely) is what props/c05.py compares with the
    real converting constructors, storage contents included. *)
 From Coq Require Import ZArith List Bool.
-From Covfie Require Import Layout LayoutMem NdMap Stack Relayout Convert ConvertProofs.
+From Covfie Require Import Layout LayoutMem NdMap Stack Relayout Convert ConvertProofs Refine_Copy.
+From Covfie.gen Require Import Gen_Copy.
 Import ListNotations.
 Local Open Scope Z_scope.
 
@@ -54,6 +55,15 @@ Theorem C05_rowmajor_to_hilbert : forall (m sx sy : nat) (tc tc' : sty) (data : 
   get_cell m (relayout_list m (LStrided 2 tc) (LHilbert tc') [Z.of_nat sx; Z.of_nat sy] data) (layer_index (LHilbert tc') [Z.of_nat sx; Z.of_nat sy] c)
   = get_cell m data (layer_index (LStrided 2 tc) [Z.of_nat sx; Z.of_nat sy] c).
 Proof. exact convert_rowmajor_to_hilbert. Qed.
+
+(* the three copy functions of the source have the scheme the conversion model executes: extents from the source,
+   value-initialised storage of the target layout's capacity, every index tuple of the box visited, the target
+   position from the target layer's own index function, all M components copied from the source's lookup *)
+Theorem C05_copy_schemes_are_the_sources :
+  scheme_ok copy_strided (model_capacity (LStrided 2 U64)) Inline = true /\
+  scheme_ok copy_morton (model_capacity (LMorton 2 U64 false)) Calc = true /\
+  scheme_ok copy_hilbert (model_capacity (LHilbert U64)) CalcSizes = true /\ copy_problems = O.
+Proof. exact copy_schemes_are_the_models. Qed.
 
 Print Assumptions C05_relayout_preserves.
 Print Assumptions C05_executable_conversion_preserves_cells.
